@@ -24,12 +24,14 @@ import re
 import subprocess
 
 from props import c02_o5m as base
+from props import c03_pbf as hp
 
 MODULES = ['Osmium.Props.C03O5m']
 EXES = ['model_o5m']
 RULE = ('o5m hostile tier: prefixes + byte mutations + token-driven structure mutations of spec-encoder files, run on the real '
         'Reader (ASan+UBSan, NDEBUG and assertions, watchdog, full traversal) and the model; distinct = distinct (input, build); '
-        'non-trivial = all (every input is a damaged or truncated o5m file)')
+        'valid files + structure mutations again through harness/c03.cpp at normal and at 64..200-byte parser buffer sizes '
+        '(objects must be identical); non-trivial = all (every input is a damaged or truncated o5m file)')
 
 SAN_FLAGS = ['-fno-sanitize=signed-integer-overflow']   # DeltaDecode::update wraps by design (comment in util/delta.hpp)
 MAXV = 2 ** 64 - 1
@@ -236,6 +238,7 @@ def run_part(ctx):
         return
 
     # ---- base files ---------------------------------------------------------------------------
+    hp.tick(ctx, 'o5m:generate')
     seed0 = rng.below(2 ** 30)
     nbase = 30 if quick else 250
     specs = []
@@ -263,6 +266,7 @@ def run_part(ctx):
         data = bytes.fromhex(f['hex'])
         toks = parse_toks(f['toks'])
         assert build(toks) == data, 'token stream does not rebuild the file'
+        inputs.append(('valid', data))
         if len(data) <= (260 if quick else 400):
             for n in range(len(data)):
                 inputs.append(('prefix', data[:n]))
@@ -294,6 +298,7 @@ def run_part(ctx):
             return 7
         return 7 if i % 16 else [0, 1, 2, 4, 3, 5, 6, 7][(i // 16) % 8]
 
+    hp.tick(ctx, 'o5m:harness+model')
     for bname, aflag, hbin in builds:
         lines = ['dec %s %d %s' % (aflag, rt_for(i), d.hex() or '-') for i, (_, d) in enumerate(inputs)]
         for l in lines:
@@ -351,3 +356,25 @@ def run_part(ctx):
                           % (bname, ndis, lab, (d[1] if d else out)[:200], (d[2] if d else mod)[:200]),
                           {'kind': 'broken-correspondence', 'op': line[:30000], 'impl': out[:3000], 'model': mod[:3000], 'build': bname},
                           found_input=False)
+
+    # ---- small-buffer builds (machinery in c03_pbf.py): the parser's buffer starts at 64..200 bytes and grows while
+    # objects are built; reference = the same `rd` op on the normal-size builds of harness/c03.cpp (guarded walk there too)
+    cb = hp.build_harnesses(ctx)
+    if cb is None:
+        return
+    hp.tick(ctx, 'o5m:smallbuf-reference')
+    sel = [i for i, (lab, _) in enumerate(inputs) if hp.structure_label(lab) and not lab.startswith('prefix')]
+    cap = 3000 if quick else 24000
+    if len(sel) > cap:
+        sel = [i for k, i in enumerate(sel) if inputs[i][0] == 'valid' or k % ((len(sel) + cap - 1) // cap) == 0]
+    sin = [inputs[i] for i in sel]
+    srt = [rt_for(i) for i in sel]
+    ref = {}
+    for bname, aflag, hbin in cb[:1]:       # NDEBUG build; the assertion small-buffer builds are compared with it as well
+        lines = ['rd %s o5m none %d %s' % (aflag, srt[k], d.hex() or '-') for k, (_, d) in enumerate(sin)]
+        ref[aflag] = hp.run_harness(hbin, lines)
+        for k, ((lab, d), line, (out, crash)) in enumerate(zip(sin, lines, ref[aflag])):
+            ctx.note_case(bname + ' ' + line)
+            if crash is not None or (out is not None and (out.startswith('OOB:') or out == 'NONSTD')):
+                hp.report(ctx, 'o5m', 'o5m', srt[k], bname, aflag, hbin, lab, d, line, None, out, crash)
+    hp.smallbuf_run(ctx, 'o5m', 'o5m', sin, ref, lambda k: srt[k], share=3 if quick else 2)
